@@ -427,14 +427,35 @@ def plan(tier):
     return items
 
 
+def tod_item(arg):
+    """An error position given as a time of day is translated by the manifest into the media URLs: the meaning must
+    survive - the error is produced for the segment that contains that time. (The behavioural oracle of props/c16.py,
+    instants on and off segment boundaries.)"""
+    from props import c16
+    a = c16.tod_item(arg)
+    out = core.Acc()
+    out.merge(a)
+    out.viol = {}
+    out.viol_count.clear()
+    for s_, lst in a.viol.items():
+        for v in lst:
+            out.violation('C07|' + s_.split('|', 1)[1], v['what'], dict(v['record'], kind='tod7', arg=list(arg)))
+    return out
+
+
 def _dispatch(item):
     if item[0] == 'int' and item[1][0] == 'legacy':
         return legacy_item(item[1])
+    if item[0] == 'tod':
+        return tod_item(item[1])
     return unit_layer(None) if item[0] == 'unit' else integration_item(item[1])
 
 
 def run(ctx):
     items = [('unit', None)] + [('int', it) for it in plan(ctx.tier)]
+    for addressing in ('number', 'time'):
+        for ks in ([12, 13], [16, 19], [20, 23.5]) if ctx.quick else ([8, 9, 10, 11], [12, 13, 14, 15], [16, 19, 20, 23.5], [24, 28, 32, 36]):
+            items.append(('tod', ('bbb', addressing, ks, ctx.tier)))
     ctx.merge_all(ctx.pmap(_dispatch, items, chunksize=4))
     ctx.extra.update(options_discovered=ctx.acc.notes.get('options_discovered'),
                      integration_requests=len(items) - 1, integration_values=INTEGRATION_VALUES,
@@ -443,6 +464,9 @@ def run(ctx):
 
 
 def replay(record):
+    if record.get('kind') == 'tod7':
+        acc = tod_item(tuple(record['arg'][:2]) + (record['ks'],) + tuple(record['arg'][3:]))
+        return [(s, v[0]['what']) for s, v in acc.viol.items()]
     if record.get('kind') == 'legacy':
         acc = legacy_item(('legacy', record['name'], record['prefix'], record['assign']))
         return [(s, v[0]['what']) for s, v in acc.viol.items()]
